@@ -100,6 +100,7 @@ func (ar *APIRouter) writeUserInfoHlr(w http.ResponseWriter, r *http.Request) {
 	}
 	if !bytes.Equal(UID, uinfo.UID) {
 		http.Error(w, "UID mismatch", http.StatusBadRequest)
+		return
 	}
 
 	err = ar.manager.WriteUserInfo(uinfo)
